@@ -186,6 +186,11 @@ func (e *panicErr) Error() string {
 	return fmt.Sprintf("panic-error %d/%d/%d/%d", e.exec, e.kind, e.id, e.ord)
 }
 
+type initRec struct {
+	name string
+	line int
+}
+
 type memoEnt struct {
 	k [4]int
 	e error
@@ -211,6 +216,8 @@ type execRun struct {
 	nem     [3]int
 	states  []cff.SchedulerState
 	nstates int
+	inits   [3][64]initRec // TaskInit calls per emitter (name, source line)
+	ninits  [3]int
 
 	inflight, maxInfl int
 	ctxBad            int
@@ -579,7 +586,17 @@ type recTask struct {
 }
 
 func (e *recEmitter) TaskInit(t *cff.TaskInfo, _ *cff.DirectiveInfo) cff.TaskEmitter {
+	e.noteInit(t.Name, t.Line)
 	return &recTask{e, t.Name}
+}
+
+//go:norace
+func (e *recEmitter) noteInit(name string, line int) {
+	x := e.x
+	if x.ninits[e.k] < len(x.inits[e.k]) {
+		x.inits[e.k][x.ninits[e.k]] = initRec{name, line}
+		x.ninits[e.k]++
+	}
 }
 func (e *recEmitter) FlowInit(*cff.FlowInfo) cff.FlowEmitter             { return e }
 func (e *recEmitter) ParallelInit(*cff.ParallelInfo) cff.ParallelEmitter { return (*recPar)(e) }
@@ -724,7 +741,11 @@ func Exec(t *testing.T, d *Desc, replay, keepTrace bool, states map[uint64]struc
 	for i := range d.Execs {
 		ed := &d.Execs[i]
 		pr := programs[ed.Prog]
-		x := &execRun{idx: i, d: ed, prog: pr.P, fn: pr.Fn, r: r, token: new(int), events: make([]Ev, 4096),
+		nevents := 4096
+		for _, c := range ed.Colls {
+			nevents += 2 * len(c.Vals)
+		}
+		x := &execRun{idx: i, d: ed, prog: pr.P, fn: pr.Fn, r: r, token: new(int), events: make([]Ev, nevents),
 			memo: make([]memoEnt, 0, 512), states: make([]cff.SchedulerState, 256)}
 		for k := range x.em {
 			x.em[k] = make([]EmEv, 1024)
@@ -741,6 +762,9 @@ func Exec(t *testing.T, d *Desc, replay, keepTrace bool, states map[uint64]struc
 	}
 	if d.Prop == "C03" {
 		sim.CountEvery = 16
+	}
+	if d.Prop == "C03scale" {
+		sim.CountEvery = 1024
 	}
 	if replay {
 		sim.Ch = engine.ReplayChooser(d.Choices)
